@@ -241,6 +241,8 @@ func (e *env) connect(sc *Scenario, st *runState) (t xport, peer net.Conn, obs *
 
 var profile = os.Getenv("C11_PROFILE") != ""
 
+var unfinished atomic.Int64
+
 func (e *env) run(sc *Scenario) {
 	if profile { // development aid: where the wall time goes, per class
 		t0 := time.Now()
@@ -279,6 +281,9 @@ func (e *env) run(sc *Scenario) {
 		e.rec.Violation(sc.Idx, "transport:blocked-on-library-lock:"+fns[0], fmt.Sprintf("%s has waited on a lock inside the library for %s while the peer side was being served (scenario %s/%s)", fns[0], e.watchdog, sc.Kind, sc.Peer), map[string]any{"scenario": sc, "stack": stacks[0]})
 	} else {
 		e.rec.Inconclusive(fmt.Sprintf("watchdog (%s): scenario did not finish: %+v", e.watchdog, *sc))
+		if unfinished.Add(1) >= 4 {
+			e.abort("four scenarios did not finish within their watchdog: the rest of the generated workload is not run")
+		}
 	}
 	go st.closeAll() // Close itself may be parked on the same lock
 	select {
